@@ -8,3 +8,34 @@ package values
 //@   ensures[C11] iff(result1 == nil, a + b <= pow2(64)-1)
 //@   ensures[C11] result1 == nil ==> result0 == a + b
 //@   ensures result1 != nil ==> kind(result1) == OverflowError
+
+// ---- arbitrary-precision Int (C11, C18, C32)
+//@ typenum IntValue: big(self.BigInt)
+//@ typeinv IntValue: self.BigInt != nil
+//@ func NewIntValueFromBigInt
+//@   inline
+//@ func NewUnmeteredIntValueFromBigInt
+//@   inline
+//@ func NewIntValueFromInt64
+//@   inline
+
+//@ schema values_int_binop(M=Plus, E=num(v) + num(other), EST=NewPlusBigIntMemoryUsage)
+//@ schema values_int_binop(M=Minus, E=num(v) - num(other), EST=NewMinusBigIntMemoryUsage)
+//@ schema values_int_binop(M=Mul, E=num(v) * num(other), EST=NewMulBigIntMemoryUsage)
+//@ schema values_int_divop(M=Div, E=tdiv(num(v), num(other)), GUARD=words(num(other)) < 100)
+//@ schema values_int_divop(M=Mod, E=trem(num(v), num(other)), GUARD=true)
+
+//@ func (IntValue).Negate
+//@   requires valid(v)
+//@   nofail
+//@   env MemoryMeteringError ComputationMeteringError
+//@   modifies ghost("metered")
+//@   ensures[C11] num(result) == -num(v) && valid(result)
+//@   ensures[C32] gauge != nil ==> ghost("metered") >= 8 * words(num(result))
+
+//@ func (IntValue).compare
+//@   requires valid(v) && valid(other)
+//@   nofail
+//@   env ComputationMeteringError
+//@   ensures[C18] result == ite(num(v) < num(other), -1, ite(num(v) > num(other), 1, 0))
+//@ schema values_int_cmp()
